@@ -54,10 +54,12 @@ TrMtOp ==
                /\ codes' = 1 /\ ctr' = NoCtr /\ last' = NoRes /\ hist' = <<E.op>>
        ELSE Apply(E.op)
     /\ Chk("C12", "generated_code_does_not_panic", l, E.panic = "")
-    /\ Chk("C12", "proxy_call_and_raw_json_leave_the_two_chains_in_the_same_state", l, E.proxy.view = E.raw.view /\ E.same_addr)
-    /\ Chk("C12", "proxy_call_and_raw_json_have_the_same_result", l, E.proxy.res = E.raw.res)
-    /\ Chk("C12", "handler_error_surfaces_as_the_contracts_error_value", l, ResMatches(E.proxy.res, E.op))
-    /\ Chk("C12", "chain_state_is_what_the_handlers_left", l, ViewMatches(E.proxy.view, ctr') /\ ViewMatches(E.raw.view, ctr'))
+    /\ IF E.panic # "" THEN TRUE       \* nothing else was observed of this operation (the history ends here)
+       ELSE
+       /\ Chk("C12", "proxy_call_and_raw_json_leave_the_two_chains_in_the_same_state", l, E.proxy.view = E.raw.view /\ E.same_addr)
+       /\ Chk("C12", "proxy_call_and_raw_json_have_the_same_result", l, E.proxy.res = E.raw.res)
+       /\ Chk("C12", "handler_error_surfaces_as_the_contracts_error_value", l, ResMatches(E.proxy.res, E.op))
+       /\ Chk("C12", "chain_state_is_what_the_handlers_left", l, ViewMatches(E.proxy.view, ctr') /\ ViewMatches(E.raw.view, ctr'))
     /\ l' = l + 1 /\ TLCSet(1, l + 1)
 TSpec == TInit /\ [][TrMtOp]_tvars
 TraceAccepted ==
